@@ -26,6 +26,7 @@ import (
 	"google.golang.org/protobuf/encoding/protojson"
 	"google.golang.org/protobuf/encoding/protowire"
 	"google.golang.org/protobuf/proto"
+	"google.golang.org/protobuf/reflect/protoreflect"
 )
 
 // StreamDecoder is used to decode messages from a stream. This is used
@@ -247,8 +248,9 @@ func (s StrictProtoCodec) Unmarshal(data []byte, msg any) error {
 	if err := proto.Unmarshal(data, protoMsg); err != nil {
 		return err
 	}
-	// We are being strict and thus disallow any unrecognized fields.
-	unrecognized := protoMsg.ProtoReflect().GetUnknown()
+	// We are being strict and thus disallow any unrecognized fields,
+	// in the message itself or in any message nested in it.
+	unrecognized := findUnknownFields(protoMsg.ProtoReflect())
 	if len(unrecognized) == 0 {
 		return nil
 	}
@@ -303,4 +305,36 @@ func (s StrictProtoCodec) MarshalStable(msg any) ([]byte, error) {
 
 func (s StrictProtoCodec) IsBinary() bool {
 	return true
+}
+
+// findUnknownFields returns the unrecognized bytes of msg or, if it has
+// none, of the first message nested in it (at any depth) that has some.
+func findUnknownFields(msg protoreflect.Message) protoreflect.RawFields {
+	if unrecognized := msg.GetUnknown(); len(unrecognized) > 0 {
+		return unrecognized
+	}
+	var unrecognized protoreflect.RawFields
+	msg.Range(func(field protoreflect.FieldDescriptor, val protoreflect.Value) bool {
+		switch {
+		case field.IsMap():
+			if field.MapValue().Message() == nil {
+				return true
+			}
+			val.Map().Range(func(_ protoreflect.MapKey, elem protoreflect.Value) bool {
+				unrecognized = findUnknownFields(elem.Message())
+				return len(unrecognized) == 0
+			})
+		case field.Message() == nil:
+			return true
+		case field.IsList():
+			list := val.List()
+			for i := 0; i < list.Len() && len(unrecognized) == 0; i++ {
+				unrecognized = findUnknownFields(list.Get(i).Message())
+			}
+		default:
+			unrecognized = findUnknownFields(val.Message())
+		}
+		return len(unrecognized) == 0
+	})
+	return unrecognized
 }
